@@ -488,3 +488,55 @@ impl PeerSim {
 pub fn nid(id: &Id) -> NodeId {
     NodeId::new(id)
 }
+
+/// A record built by hand from RLP (identity scheme "v4": the signature is over the keccak256 of
+/// the content list). Unlike the `enr` builder, which stops at 295 bytes, this reaches the
+/// 300-byte maximum a decoder accepts. `extra` is the length of a padding value under key "zpad".
+pub fn raw_record(sk: &SigningKey, seq: u64, addr: Option<SocketAddr>, extra: usize) -> Vec<u8> {
+    use discv5::enr::k256::ecdsa::{signature::hazmat::PrehashSigner, Signature};
+    use sha3::{Digest, Keccak256};
+    let mut content = Vec::new();
+    rlp_ref::encode_uint(seq, &mut content);
+    rlp_ref::encode_bytes(b"id", &mut content);
+    rlp_ref::encode_bytes(b"v4", &mut content);
+    if let Some(SocketAddr::V4(a)) = addr {
+        rlp_ref::encode_bytes(b"ip", &mut content);
+        rlp_ref::encode_bytes(&a.ip().octets(), &mut content);
+    }
+    rlp_ref::encode_bytes(b"secp256k1", &mut content);
+    rlp_ref::encode_bytes(&crypto_ref_compressed(sk), &mut content);
+    if let Some(SocketAddr::V4(a)) = addr {
+        rlp_ref::encode_bytes(b"udp", &mut content);
+        rlp_ref::encode_uint(a.port() as u64, &mut content);
+    }
+    rlp_ref::encode_bytes(b"zpad", &mut content);
+    rlp_ref::encode_bytes(&vec![0xAB; extra], &mut content);
+    let mut to_sign = Vec::new();
+    rlp_ref::encode_list_payload(&content, &mut to_sign);
+    let hash = Keccak256::digest(&to_sign);
+    let sig: Signature = sk.sign_prehash(&hash).expect("sign");
+    let mut payload = Vec::new();
+    rlp_ref::encode_bytes(&sig.to_bytes(), &mut payload);
+    payload.extend_from_slice(&content);
+    let mut out = Vec::new();
+    rlp_ref::encode_list_payload(&payload, &mut out);
+    out
+}
+
+fn crypto_ref_compressed(sk: &SigningKey) -> Vec<u8> {
+    super::crypto_ref::compressed(sk.verifying_key())
+}
+
+/// A valid record of exactly `target` encoded bytes (<= 300), or None if the sizes do not work out.
+pub fn record_of_size(sk: &SigningKey, seq: u64, addr: Option<SocketAddr>, target: usize) -> Option<Enr> {
+    for extra in 0..target {
+        let raw = raw_record(sk, seq, addr, extra);
+        if raw.len() == target {
+            return rlp_ref::decode_record(&raw);
+        }
+        if raw.len() > target {
+            return None;
+        }
+    }
+    None
+}
